@@ -229,6 +229,16 @@ def run_part4(item):
         props = [['long', 'String', ('y' * 1000).encode().hex()], ['empty', 'String', ''], ['', 'String', 'name-is-empty'.encode().hex()]]
         h = [G.seg([('/', ['NODATA'], props), (paths[2], ['FULL', 'String', len(vals), sum(len(x) // 2 for x in hx), hx], props)], chunks=3)]
         _exec(res, h, seed, {'part': 4, 'shape': 'strings'}, True)
+    elif which.startswith('strchunk'):
+        # every chunk of 2 and 3 strings over an alphabet of short texts (widths 0-3 bytes: empty, NUL at either end, all-NUL,
+        # multi-byte characters): equal and unequal widths side by side, followed by a second chunk shape
+        alpha = ['', 'a', '\x00', 'ab', 'a\x00', '\x00a', 'é', 'abc', 'ab\x00', '\x00\x00\x00', '日', 'é\x00']
+        first = alpha[int(which[8:])]
+        for rest in [(b_,) for b_ in alpha] + [(b_, c_) for b_ in alpha for c_ in alpha]:
+            vals = (first,) + rest
+            hx = [v.encode('utf-8').hex() for v in vals]
+            h = [G.seg([(paths[2], ['FULL', 'String', len(vals), sum(len(x) // 2 for x in hx), hx]), (paths[0], full('Int8', 1))], chunks=2)]
+            _exec(res, h, seed, {'part': 4, 'shape': 'string-chunks'}, True)
     elif which == 'order':
         # channels before their group, root last, a group without channels, channels without group object
         h = [G.seg([(paths[0], full('Int8', 1)), ("/'h'/'x'", full('Int16', 2)), ("/'g'", ['NODATA'], [['p', 'Int32', '01000000']]),
@@ -313,7 +323,7 @@ def run(ctx):
         for first in range(len(_labs2(ctx.tier, depth))):
             items.append((first, depth, ts, ctx.tier, seed))
     r2 = merge(ctx.map(run_part2, items, chunksize=2))
-    r3 = merge(ctx.map(run_part3, [(t, seed) for t in G.PROP_TYPES]) + ctx.map(run_part4, [(w, seed) for w in ('wide', 'long', 'strings', 'order')])
+    r3 = merge(ctx.map(run_part3, [(t, seed) for t in G.PROP_TYPES]) + ctx.map(run_part4, [(w, seed) for w in ['wide', 'long', 'strings', 'order'] + ['strchunk%d' % i for i in range(12)]])
                + ctx.map(run_part5, [(si, seed) for si in range(len(P5_SHAPES))]))
     m = merge([{k: r[k] for k in ('counters', 'outcomes', 'violations', 'samples')} for r in (r1, r2, r3)])
     vac = []
